@@ -11,6 +11,8 @@ The user-visible value is `userView` of that tree (`Driver.debugTree` renders
 it); the correspondence compares it with the compiled parser's `Debug` output.
 -/
 import KikiVerif.LR.Snd
+import KikiVerif.Proofs.Run
+import KikiVerif.Proofs.Valid
 
 namespace KikiVerif.C02
 open KikiVerif.LR
@@ -54,8 +56,22 @@ theorem C02_unique {g : Grammar T N} {A : Auto T N} (hc : Complete (P := P) g A)
   rw [hy] at s1
   exact steps_ok_unique s1 o1 s2 o2
 
+open KikiVerif.Valid in
+/-- **C02 for a validated automaton**: an accepted run returns a well-formed derivation tree whose leaves are
+the input tokens themselves (payloads included), each exactly once and in order; and it is the only
+derivation tree of that input -/
+theorem C02_faithful {P : Type} {g : Grammar Nat Nat} {nN : Nat} {C : Cert} (hv : validB g nN C = true)
+    (w : List (Tok Nat P)) (fuel : Nat) (t : Tree Nat P) (cf : Cfg Nat P)
+    (hrun : runCfg g (mkAuto C) fuel ⟨[(mkAuto C).start], [], w⟩ = some (.ok t, cf)) :
+    WF g t (.n g.start) ∧ t.yield = w ∧ ∀ t' : Tree Nat P, WF g t' (.n g.start) → t'.yield = w → t' = t := by
+  obtain ⟨hs, hc⟩ := validB_sound (P := P) hv
+  obtain ⟨hw, hy⟩ := (run_sound hs fuel _ [] .base _ _ hrun).2.2 t rfl
+  have hy' : t.yield = w := by simpa using hy
+  exact ⟨hw, hy', fun t' hw' hy'' => C02_unique hc t' t hw' hw (by rw [hy', hy''])⟩
+
 end KikiVerif.C02
 
 #print axioms KikiVerif.C02.C02_tree
 #print axioms KikiVerif.C02.C02_that_tree
 #print axioms KikiVerif.C02.C02_unique
+#print axioms KikiVerif.C02.C02_faithful
